@@ -103,7 +103,7 @@ fn header_kernel(steps: &[Step], reader_version: u8) {
 
 macro_rules! header {
     ($name:ident, $rv:expr, [$($s:expr),+]) => {
-        proof! { fn $name() unwind(6) { header_kernel(&[$($s),+], $rv); } }
+        proof! { fn $name() unwind(8) { header_kernel(&[$($s),+], $rv); } }
     };
 }
 
@@ -251,5 +251,49 @@ proof! {
         std::mem::forget(d);
         std::mem::forget(ctx);
         std::mem::forget(meta);
+    }
+}
+
+
+// ------------------------------------------------------------------ whole records (attempt)
+
+proof! {
+    //@ props=C03,C02 tier=off bounds=whole-record:V1{a:u8,b:u16,c:u8}(FieldAdded-c)-reading-its-own-version-1-bytes;fields-symbolic cap=1800
+    fn c03_whole_v1_on_v1() unwind(6) {
+        use crate::catalogue::V1;
+        let mut data: [u8; 7] = sym::bytes();
+        data[0] = 1;
+        data[1] = 6; // zigzag(3)
+        data[2] = 2; // zigzag(1)
+        match desert_core::deserialize::<V1>(&data) {
+            Ok(v) => {
+                assert!(v.a == data[3] && v.b == u16::from_be_bytes([data[4], data[5]]) && v.c == data[6]);
+                cover!(true);
+            }
+            Err(e) => { std::mem::forget(e); assert!(false, "a record failed to read its own encoding"); }
+        }
+    }
+}
+
+proof! {
+    //@ props=C03,C02 tier=off bounds=whole-record:P2{a:u8,b:u16}(no-steps)-reading-version-1-bytes-of-V1:extra-chunk-skipped cap=1800
+    fn c03_whole_v0def_on_v1() unwind(6) {
+        use crate::catalogue::P2;
+        let mut data: [u8; 9] = sym::bytes();
+        data[0] = 1;
+        data[1] = 6;
+        data[2] = 2;
+        let mut ctx = DeserializationContext::new(&data);
+        match <P2 as desert_core::BinaryDeserializer>::deserialize(&mut ctx) {
+            Ok(v) => {
+                assert!(v.a == data[3] && v.b == u16::from_be_bytes([data[4], data[5]]));
+                // the unknown chunk was skipped in full: the two trailing bytes are next
+                assert!(matches!(ctx.read_u8(), Ok(x) if x == data[7]));
+                assert!(matches!(ctx.read_u8(), Ok(x) if x == data[8]));
+                cover!(true);
+            }
+            Err(e) => { std::mem::forget(e); assert!(false, "an older definition failed to read newer data"); }
+        }
+        std::mem::forget(ctx);
     }
 }
